@@ -77,7 +77,7 @@ def node_to_dot(
 
     if add_self:
         if node._parent:
-            attr_def = {}
+            attr_def = {"label": node.name}
         else:  # __root__ inherits tree name by default
             attr_def = {"label": f"{name}", "shape": "box"}
 
